@@ -360,3 +360,19 @@ MUTANTS["C18"] = [
     M("error-printed-twice", QST, "            if error is not None:\n                self._write_error(io, error)\n", "            if error is not None:\n                self._write_error(io, error)\n                self._write_error(io, error)\n", expect="C18-R4"),
     M("twin-interactive-local", QST, "        if not io.is_interactive():\n            return self.default\n", "        interactive = io.is_interactive()\n        if not interactive:\n            return self.default\n", twin=True),
 ]
+
+PIN = "src/clikit/ui/components/progress_indicator.py"
+
+MUTANTS["C19"] = [
+    M("join-removed", PIN, "            self._auto_running.set()\n            self._auto_thread.join()\n\n            raise", "            self._auto_running.set()\n\n            raise", expect="C19-R1"),
+    M("f15-regression", PIN, "        except BaseException:\n            self._io.write_line(\"\")", "        except (Exception, KeyboardInterrupt):\n            self._io.write_line(\"\")", expect="C19-R1"),
+    M("finish-does-not-join", PIN, "        if self._auto_thread is not None:\n            self._auto_running.set()\n            self._auto_thread.join()\n\n", "", expect="C19-R1"),
+    M("f19-regression", PIN, "        with self._lock:\n            self._overwrite(\n                re.sub(\n                    r\"(?i){([a-z\\-_]+)(?::([^}]+))?}\",\n                    self._overwrite_callback,\n                    self._fmt,\n                )\n            )",
+      "        self._overwrite(\n            re.sub(\n                r\"(?i){([a-z\\-_]+)(?::([^}]+))?}\",\n                self._overwrite_callback,\n                self._fmt,\n            )\n        )", expect="C19-R2"),
+    M("finish-bypasses-lock", PIN, "        self._display()\n        self._io.write_line(\"\")\n        self._started = False", "        self._overwrite(self._message)\n        self._io.write_line(\"\")\n        self._started = False", expect="C19-R2"),
+    M("redraw-before-interval-test", PIN, "        current_time = self._get_current_time_in_milliseconds()\n        if current_time < self._update_time:\n            return\n\n        self._update_time = current_time + self._interval\n        self._current += 1\n\n        self._display()",
+      "        current_time = self._get_current_time_in_milliseconds()\n        self._current += 1\n        self._display()\n        if current_time < self._update_time:\n            return\n\n        self._update_time = current_time + self._interval", expect="C19-R3"),
+    M("no-rearm", PIN, "        self._update_time = current_time + self._interval\n        self._current += 1\n\n        self._display()", "        self._current += 1\n\n        self._display()", expect="C19-R3"),
+    M("twin-finally", PIN, "        try:\n            yield self\n        except BaseException:\n            self._io.write_line(\"\")\n\n            self._auto_running.set()\n            self._auto_thread.join()\n\n            raise\n\n        self.finish(end_message, reset_indicator=True)",
+      "        ok = False\n        try:\n            yield self\n            ok = True\n        finally:\n            if not ok:\n                self._io.write_line(\"\")\n            self._auto_running.set()\n            self._auto_thread.join()\n\n        self.finish(end_message, reset_indicator=True)", twin=True),
+]
